@@ -203,3 +203,17 @@ Fixpoint sup_states (s : sup) (l : list sop) : list sup :=
    subclass of str, so both arguments go through unchanged *)
 Definition send_remote_comm_event (ty data : rc_arg) : list notification :=
   [(RemoteCommunicationEvent, ARemote ty data)].
+
+(* ------------------------------------------------------------ (d) output held back at reap time *)
+
+(* finish() first flushes what the output dispatchers were holding back
+   (record_output(final=True)): with *_events_enabled each flush raises a
+   PROCESS_LOG event built with self.process.pid - still the child's pid - and
+   only then the state change(s) are made and announced, and pid is cleared *)
+Definition flush_events (p : proc) (held : list (evclass * bytes)) : list notification :=
+  map (fun h => (fst h, ALog (p_name p) (p_group p) (p_pid p) (DBytes (snd h)))) held.
+
+Definition finish_with_output (p : proc) (held : list (evclass * bytes)) (es : Z) (tq ee : bool) (now : Z)
+  : list notification :=
+  flush_events p held ++
+  match finish p es tq ee now with Done _ out => out | AssertionError _ out => out end.
